@@ -16,6 +16,7 @@ class State:
         self.clock_off = 0
         self.pre = None     # entry snapshot (for old())
         self.ghost = {}
+        self.inst = set()   # contract instances / typed reads whose facts are already in pc
 
     def fork(self):
         s = State.__new__(State)
@@ -31,6 +32,7 @@ class State:
         s.clock_off = self.clock_off
         s.pre = self.pre
         s.ghost = dict(self.ghost)
+        s.inst = set(self.inst)
         return s
 
     def snapshot(self):
